@@ -206,6 +206,9 @@ def build_object(spec, variant=None):
         cls, allf, _ = levels[i]
         vals = {k: (build(v) if isinstance(v, list) else v)
                 for k, v in spec["vals"].items() if k in allf}
+        # what __post_init__ stores in init=False fields: not the class default, the
+        # same in every process (it is part of the value the spec denotes)
+        usertypes.NOINIT_VALUES["serial"] = 2
         inst = usertypes.instantiate(cls, allf, vals)
         emb = spec.get("embed")
         if emb is None:
@@ -498,7 +501,12 @@ def produce(spec):
                     raise
                 out["hash"] = None
             out["digests"] = digests(obj)
-            out["twin_digests"] = digests(build_object(spec)[0])
+            # the twin is an equal object built separately, with the other sharing mode:
+            # repeated sub-terms are one object in one of the two and separate in the other
+            tspec = spec
+            if kind == "expr":
+                tspec = {**spec, "shared": not spec.get("shared")}
+            out["twin_digests"] = digests(build_object(tspec)[0])
             if kind == "expr" and n_kw_reorderable(spec["expr"]):
                 tw = build_object(spec, "kwreorder")[0]
                 out["kw_twin_equal"] = bool(tw == obj) and hash(tw) == hash(obj)
